@@ -158,7 +158,10 @@ def cond_matrix(Nr, Nt, emax=3.0):
                                "identity"]),
         seed=seeds,
         sv=_svals(k, emax),
-        scale=st.one_of(st.just(1.0), _logunif(-3, 3, 1)),
+        # overall magnitude of the channel: order one, a few decades around
+        # it, or a realistic linear path-loss amplitude (down to -180 dB)
+        scale=st.one_of(st.just(1.0), _logunif(-3, 3, 1), _logunif(-3, 3, 1),
+                        _logunif(-9, -3, 1)),
     )).map(lambda d: dict(Nr=d["Nr"], Nt=d["Nt"], basis=d["basis"],
                           seed=d["seed"], sv_class=d["sv"][0],
                           svals=d["sv"][1], scale=d["scale"]))
